@@ -443,10 +443,14 @@ impl VersionSet {
         self.curr_wal_number = maybe_curr_wal_num.unwrap();
         self.prev_wal_number = maybe_prev_wal_num;
 
+        // A manifest that ends with a torn write is not reused: records appended behind the torn
+        // fragment could not be read back.
+        let manifest_ends_cleanly = !manifest_reader.ended_mid_fragment();
+
         // Drop the manifest reader (and therefore the underlying file handle) before attempting to
         // reuse the existing manifest file
         drop(manifest_reader);
-        if self.maybe_reuse_manifest(&manifest_file_path) {
+        if manifest_ends_cleanly && self.maybe_reuse_manifest(&manifest_file_path) {
             return Ok(true);
         }
 
